@@ -47,6 +47,10 @@ fn main() {
             // watchdog: the worker loop stops by itself at the wall-clock cap; if the process is
             // still alive long after that, one run does not return (a hang in the code under test or
             // in the harness): give up loudly instead of blocking the parent forever
+            // a worker does not outlive the parent that collects its result
+            unsafe {
+                libc::prctl(libc::PR_SET_PDEATHSIG, libc::SIGKILL);
+            }
             let cap = p(8);
             std::thread::spawn(move || {
                 std::thread::sleep(Duration::from_secs(cap + 300));
